@@ -149,6 +149,8 @@ pub mod prelude {
 
     // aliases of primitive types: the same type under a name educe cannot recognise
     pub type AliasI32 = i32;
+    /// a value for a field type without a Default impl, written as a path (array expressions need syn's `full`)
+    pub const ARR40: [u8; 40] = [7u8; 40];
     pub type AliasF64 = f64;
 
     // Into target wrapper with From impls for the integer panel
@@ -217,6 +219,15 @@ pub mod prelude {
 
     /// Generic wrappers that are *named like the generated types* (`other::Ty<T>` inside `struct Ty<T>`): a field type
     /// may spell the deriving type's own identifier without being that type.
+    /// a different type whose last path segment is the name of an Into target: `alt::Wrap` is not `Wrap`, it converts
+    /// into it (and the conversion is observable: +500)
+    pub mod alt {
+        #[derive(Debug, Clone, Copy, PartialEq, Eq, PartialOrd, Ord, Hash, Default)]
+        pub struct Wrap(pub i64);
+        impl super::Key for Wrap { fn key(&self) -> i64 { self.0 } }
+        impl From<Wrap> for super::Wrap { fn from(v: Wrap) -> super::Wrap { super::Wrap(v.0 + 500) } }
+    }
+
     pub mod homonyms {
         use super::Key;
         macro_rules! homonym { ($($n:ident),*) => { $(
